@@ -17,14 +17,24 @@ def main():
     t0 = time.time()
     filters = cfg['filter'] if isinstance(cfg['filter'], list) else [cfg['filter']]
     docs = []
+    # node ids (addresses) are stable across clang runs on the same TU when ASLR is off: then a declaration referenced
+    # from one dump can be looked up in another one by its id (checked below by running the first filter twice)
+    pre = ['setarch', '-R'] if subprocess.run(['setarch', '-R', 'true'], capture_output=True).returncode == 0 else []
+    stable = None
     for flt in filters:
-        cmd = ['clang++', '-std=' + cfg.get('std', 'c++11'), '-I' + repo + '/include', '-fsyntax-only', '-Wno-everything', '-fgnuc-version=5.4.0',
+        cmd = pre + ['clang++', '-std=' + cfg.get('std', 'c++11'), '-I' + repo + '/include', '-fsyntax-only', '-Wno-everything', '-fgnuc-version=5.4.0',
                '-Xclang', '-ast-dump=json', '-Xclang', '-ast-dump-filter=' + flt, os.path.join(here, cfg['tu'])]
         with open(astfn, 'w') as f:
             r = subprocess.run(cmd, stdout=f, stderr=subprocess.PIPE, text=True)
         if r.returncode != 0:
             print('ERROR extraction: clang failed on the instantiation TU:\n' + r.stderr[-3000:]); sys.exit(2)
+        if pre and stable is None and len(filters) > 1:
+            import re as _re
+            ids1 = _re.findall(r'"id": "(0x[0-9a-f]+)"', open(astfn).read(20000000))[:200]
+            r2 = subprocess.run(cmd, stdout=subprocess.PIPE, stderr=subprocess.PIPE, text=True)
+            stable = (r2.returncode == 0 and _re.findall(r'"id": "(0x[0-9a-f]+)"', r2.stdout[:20000000])[:200] == ids1 and len(ids1) > 0)
         docs += cxx2c.load_docs(astfn, prefix='D%d:' % len(docs))
+    cfg = dict(cfg); cfg['stable_ids'] = bool(stable)
     tr = cxx2c.Translator(docs, cfg)
     roots = []
     try:
